@@ -601,6 +601,47 @@ func runGC(c Case, s *hx.Sink) string {
 		keys = nil
 		settle(int64(n - keep))
 		runtime.KeepAlive(m)
+	} else if c.GNest {
+		// ECache with pointer keys: creations that fail, creations that remove their own key while they are in
+		// flight, ordinary traffic; whatever is not cached at the end must be collectable (keys and values)
+		what = "ecache-pointer-keys"
+		var cache *lru.ECache[*gcObj, *gcObj, *gcObj]
+		var made int64
+		mode := map[*gcObj]int{}
+		cache, err := lru.NewECache[*gcObj, *gcObj, *gcObj](c.Cap, func(k *gcObj) *gcObj { return k },
+			func(k *gcObj) (*gcObj, error) {
+				md := mode[k]
+				delete(mode, k)
+				if md&2 != 0 {
+					cache.Remove(k) // the creation of k is in flight
+				}
+				if md&1 != 0 {
+					return nil, fmt.Errorf("no value for %d", k.id)
+				}
+				made++
+				return mk(k.id, &finV), nil
+			}, func(*gcObj, *gcObj) {})
+		if err != nil {
+			s.DirectViolation(c.ID, "NewECache failed", err.Error())
+			return fmt.Sprintf("LruCase %s %s []", hx.N(c.ID), hx.Nat(c.Cap))
+		}
+		func() {
+			for i := 0; i < n; i++ {
+				k := mk(i, &finK)
+				mode[k] = i % 4 // 0 plain, 1 failing, 2 self-removing, 3 failing and self-removing
+				cache.GetOrCreate(k)
+				if i%9 == 4 {
+					cache.Remove(k)
+				}
+			}
+		}()
+		if c.Rep == 0 {
+			cache.Clear()
+		}
+		keep, _ = cache.VerifC09Counts()
+		atomic.AddInt64(&finV, int64(n)-made) // failed creations made no value
+		settle(int64(n - keep))
+		runtime.KeepAlive(cache)
 	} else {
 		what = "cache"
 		cache, err := lru.NewCache[int, *gcObj](c.Cap, func(k int) (*gcObj, error) { return mk(k, &finV), nil }, func(int, *gcObj) {})
@@ -704,6 +745,7 @@ func main() {
 	for i, n := range []int{40, 400, 3000} {
 		emit(Case{Kind: "gc", Cap: 0, GLen: n, Rep: i}, "gc-map")
 		emit(Case{Kind: "gc", Cap: 3 + 5*i, GLen: n, Rep: i % 2}, "gc-cache")
+		emit(Case{Kind: "gc", Cap: 3 + 5*i, GLen: n, Rep: (i + 1) % 2, GNest: true}, "gc-ecache-pointer-keys")
 	}
 	// 1. map histories: exhaustive small + random, ending with every iterator closed
 	d := 5
